@@ -81,7 +81,9 @@ def scenarios(quick, seed=0):
                         'max_exec': 4000})
         if not quick:
             # triples of the generation-carrying and generation-deriving writers
-            tri = [0, 2, 4, 6, 10, 12, 13, 15]  # 15 = rename
+            # generation-carrying, generation-deriving and generation-less writers, incl. the
+            # emptying writes and a not-yet-reached generation (15 = rename)
+            tri = [0, 2, 4, 6, 10, 12, 13, 15, 16, 20, 22]
             for a, b, c in itertools.combinations(tri, 3):
                 out.append({'name': '%s: %s || %s || %s' % (name, o[a]['tag'], o[b]['tag'],
                                                             o[c]['tag']),
